@@ -297,8 +297,8 @@ type streamOpts struct {
 	Tables      bool // PAT + PMT units
 	Fillers     bool // null / AF-only / TEI packets in between
 	SmallChunks bool
-	Repeats     int  // how many times PAT/PMT are repeated
-	NearPIDs    bool // PES PIDs that differ in one bit from each other (and 0x0fff next to null packets)
+	Repeats     int   // how many times PAT/PMT are repeated
+	NearPIDs    bool  // PES PIDs that differ in one bit from each other (and 0x0fff next to null packets)
 	PESTotals   []int // first PES PID: bounded units with exactly these PES_packet_length values instead of random ones
 	LongUnit    int   // first PES PID: its first unit is an unbounded PES spread over at least this many packets
 }
